@@ -1,6 +1,8 @@
 (* Driver for the extracted formatter model and its specification (C14).
    stdin, one item per line:
      T cp:w,cp:w,...          set the character width table (decimal code point : display cells)
+     X hex:w,hex:w,...        set the string width table (hex of the UTF-8 of a run of characters : display cells of the run as
+                              unicode-width measures the STRING); a run without entry measures as the sum of its characters
      S <fa><fc> <hex> <a> <b> display_span  (fa/fc in {0,1}: model the repaired code F4a/F4c)
      P <fa><fc> <hex> <p>     display_position
    stdout, one line per S/P case:
@@ -55,6 +57,24 @@ let width (c : M.char) : M.nat =
   | Some w -> w
   | None -> unknown := true; nat_of_int 1
 
+let stab : (string, M.nat) Hashtbl.t = Hashtbl.create 64
+let swidth (t : M.char list) : M.nat =
+  match t with
+  | [] -> nat_of_int 0
+  | [c] -> width c
+  | _ ->
+    (match Hashtbl.find_opt stab (hex_of_chars t) with
+     | Some w -> w
+     | None -> nat_of_int (List.fold_left (fun acc c -> acc + int_of_nat (width c)) 0 t))
+
+let set_stable spec =
+  Hashtbl.reset stab;
+  if spec <> "" then
+    List.iter (fun item ->
+      match String.split_on_char ':' item with
+      | [h; w] -> Hashtbl.replace stab h (nat_of_int (int_of_string w))
+      | _ -> failwith ("bad string width item " ^ item)) (String.split_on_char ',' spec)
+
 let set_table spec =
   Hashtbl.reset wtab;
   if spec <> "" then
@@ -80,16 +100,18 @@ let () =
       (match String.split_on_char ' ' line with
        | ["T"; spec] -> set_table spec
        | ["T"] -> set_table ""
+       | ["X"; spec] -> set_stable spec
+       | ["X"] -> set_stable ""
        | ["S"; fl; hex; a; b] ->
            let s = bytes_of_hex hex in
            let a = nat_of_int (int_of_string a) and b = nat_of_int (int_of_string b) in
            if not (M.fmt_valid_span s a b) then print_string "D=INVALID R=INVALID Q=\n"
-           else show (M.display_span width (flag fl 0) s a b) (M.spec_span width s a b)
+           else show (M.display_span swidth (flag fl 0) s a b) (M.spec_span swidth s a b)
        | ["P"; fl; hex; p] ->
            let s = bytes_of_hex hex in
            let p = nat_of_int (int_of_string p) in
            if not (M.fmt_valid_pos s p) then print_string "D=INVALID R=INVALID Q=\n"
-           else show (M.display_position width (flag fl 1) s p) (M.spec_pos width s p)
+           else show (M.display_position swidth (flag fl 1) s p) (M.spec_pos swidth s p)
        | _ -> print_string ("ERROR bad line: " ^ line ^ "\n"))
     done
   with End_of_file -> flush stdout
